@@ -643,7 +643,86 @@ func facts() map[string]any {
 	out["rcode_servfail"] = dns.RcodeServerFailure
 	out["zone_flag"] = dns.ZONE
 	shapeFacts(out)
+	storeShapeFacts(out)
 	return out
+}
+
+// storeShapeFacts reads middleware/cache/store.go of the tree under check: the reader behind the validator's own
+// DS / DNSKEY fetches (GetWithContext) consults nothing but the readers keyed on the request itself, and the answer
+// key is built from the request's own CD bit (no composite CacheKey anywhere in the file negates or invents it).
+func storeShapeFacts(out map[string]any) {
+	out["shape_private_lookup_keyed_on_request_cd"] = false
+	fset := token.NewFileSet()
+	file, err := parser.ParseFile(fset, filepath.Join(repoDir(), "middleware/cache/store.go"), nil, 0)
+	if err != nil {
+		out["shape_store_parse_error"] = err.Error()
+		return
+	}
+	allowed := map[string]bool{"Lookup": true, "LookupNXDomainCut": true, "lookupDenialProofWithExpiry": true, "LookupFailure": true}
+	readersOK, sawGet, keyOK, sawKey := true, false, true, false
+	for _, d := range file.Decls {
+		fd, ok := d.(*ast.FuncDecl)
+		if !ok || fd.Body == nil {
+			continue
+		}
+		if fd.Name.Name == "GetWithContext" && fd.Recv != nil {
+			sawGet = true
+			ast.Inspect(fd.Body, func(x ast.Node) bool {
+				c, ok := x.(*ast.CallExpr)
+				if !ok {
+					return true
+				}
+				sel, ok := c.Fun.(*ast.SelectorExpr)
+				if !ok {
+					return true
+				}
+				if id, ok := sel.X.(*ast.Ident); ok && id.Name == "s" {
+					if !allowed[sel.Sel.Name] || len(c.Args) == 0 {
+						readersOK = false
+						return true
+					}
+					if a, ok := c.Args[0].(*ast.Ident); !ok || a.Name != "req" {
+						readersOK = false
+					}
+				}
+				return true
+			})
+		}
+		// every CacheKey literal in the file takes its CD from a plain `<x>.CheckingDisabled` or a plain identifier
+		ast.Inspect(fd.Body, func(x ast.Node) bool {
+			cl, ok := x.(*ast.CompositeLit)
+			if !ok {
+				return true
+			}
+			if id, ok := cl.Type.(*ast.Ident); !ok || id.Name != "CacheKey" {
+				return true
+			}
+			for _, el := range cl.Elts {
+				kv, ok := el.(*ast.KeyValueExpr)
+				if !ok {
+					continue
+				}
+				if k, ok := kv.Key.(*ast.Ident); ok && k.Name == "CD" {
+					switch v := kv.Value.(type) {
+					case *ast.SelectorExpr:
+						if v.Sel.Name != "CheckingDisabled" {
+							keyOK = false
+						}
+						if fd.Name.Name == "Lookup" {
+							if id, ok := v.X.(*ast.Ident); ok && id.Name == "req" {
+								sawKey = true
+							}
+						}
+					case *ast.Ident:
+					default:
+						keyOK = false
+					}
+				}
+			}
+			return true
+		})
+	}
+	out["shape_private_lookup_keyed_on_request_cd"] = sawGet && readersOK && sawKey && keyOK
 }
 
 func main() {
